@@ -785,7 +785,14 @@ func resolvePath(rundir, p string) string {
 func writePre(rundir string, p c13Pre) error {
 	file := resolvePath(rundir, p.Path)
 	src := file + ".presrc"
-	h, err := createSource(src, p.Tables)
+	// the pre-existing file is set-up, not the run under test: its helper source carries no DEFAULT clauses, so that a
+	// tool that cannot describe such tables fails in the CLI run (a child process), not here inside the harness
+	plain := make([]tableSpec, len(p.Tables))
+	for i, t := range p.Tables {
+		t.Defaults = nil
+		plain[i] = t
+	}
+	h, err := createSource(src, plain)
 	if err != nil {
 		return err
 	}
